@@ -38,7 +38,7 @@ PROPS["C16"] = {
     "level_text": "Seeded generation of candidates through the public constructors over type x transport x host TCP type x address form (v4, v6, v4-mapped, mDNS) x "
                   "related-address form (absent, normal, 0.0.0.0:0, :::0, port 0, v6) x component x priority/foundation overrides x extension lists; every case is marshalled, "
                   "parsed and compared getter by getter and with Equal/DeepEqual both ways; texts (seed corpus, 1-3 mutations, random) are checked for no-panic and "
-                  "accepted => re-marshal parses to an Equal/DeepEqual candidate; attribute codecs on boundary+random values and every raw size 0..40.",
+                  "accepted => re-marshal parses to an Equal/DeepEqual candidate; attribute codecs on boundary+random values and every raw size 0..40, each decode done into a fresh variable and into one reused from the previous iteration.",
     "level_note": "Sampled, not exhaustive. Excluded on purpose as ambiguous: zoned IPv6 literals, components outside 1..255, extension bytes that are not valid UTF-8 or "
                   "runes above U+00FF (the parser reads runes), empty extension values in constructed candidates, non-empty USE-CANDIDATE values.",
     "rule": "cases = generated candidate specs (PRNG from VERIF_SEED) + texts + attribute values; distinct_nontrivial counts distinct candidate classes "
@@ -70,8 +70,12 @@ PROPS["C14"] = {
     "level_text": "Packet lists (lengths 0..65535, boundary-heavy) are framed by the real writeStreamingPacket, the byte stream is re-served under six partition kinds "
                   "(1-byte, header-split, random small/large, coalesced, all-at-once) and read back with the real readStreamingPacket, tcpPacketConn.ReadFrom and (loopback) "
                   "activeTCPConn; truncated, garbage and huge-length streams are compared with a reference deframer; every call is panic-guarded; the conn records the "
-                  "largest and out-of-segment read requests.",
-    "level_note": "Sampled packet lists and partitions (not all partitions of all streams). The loopback part depends on kernel TCP; a stalled loopback session is counted inconclusive, never a violation.",
+                  "largest and out-of-segment read requests. "
+                  "Part (H): TCPMuxDefault.handleConn is fed a re-chunked stream (first STUN frame + packets; a third with the first frame coalesced with what follows; hostile first frames): the packet conn of that ufrag must deliver the first message and every following packet in order. "
+                  "One loopback session in forty stalls for 1.25 s (thorough: up to 3.5 s) in the middle of a frame towards activeTCPConn.",
+    "level_note": "Sampled packet lists and partitions (not all partitions of all streams). The loopback part depends on kernel TCP; a stalled loopback session is counted inconclusive, never a violation - "
+                  "except when the state of the stream decides: the peer has sent a well-formed stream completely and still holds the connection open, nothing is unsent or unread on either socket (TIOCOUTQ/TIOCINQ) "
+                  "and the read loop is parked waiting for more (or has ended), yet a packet never came out of ReadFrom.",
     "rule": "case = (packet list, partition kind, buffer mode) or (hostile stream, buffer capacity, partition); distinct_nontrivial counts distinct "
             "(partition kind, buffer mode, list-length bucket, max-length bucket) and hostile (mode, partition, capacity, stream-size bucket) classes",
     "assumptions": ["a net.Conn returns data and errors in separate Read calls", "after a refused (too large) frame the stream is abandoned, as all users of the framing do"],
@@ -220,7 +224,7 @@ PROPS["C11"] = {
     "engine": "E4 lifecycle (notifier part)",
     "technique": "history monitor of each callback stream (unique event ids, overlap counter, sequence numbers around Close) over the real handlerNotifier with hostile handler latencies, re-entrant handlers and seeded pauses at hook H2, under the race detector; grammar check of the OnCandidate log across gather cycles with held STUN replies and Restart",
     "level_text": "Direct notifier histories for all three streams: 1-60 numbered events in bursts, handler latency 0 / Gosched / microseconds / milliseconds / blocks-until-released, handlers that enqueue further events or call Close, "
-                  "Close(graceful or not) at a random instant plus a final graceful Close; agent-level: 1-4 gather cycles with explicit ufrags, each either completed (STUN reply delivered) or cancelled by Restart while the query is outstanding.",
+                  "Close(graceful or not) at a random instant plus a final graceful Close; agent-level: 1-4 gather cycles with explicit ufrags, each either completed (STUN reply delivered) or cancelled by Restart while the query is outstanding; a third of the gather histories also gather relay candidates through a fake TURN client whose allocation is quick or outlasts the STUN timeout, half of them with an unusable (password-less) TURN URL behind the usable one.",
     "level_note": "Handlers that never return are not exercised (GracefulClose is documented to wait for them). Interleavings are those the scheduler and the seeded pauses produce.",
     "rule": "case = one notifier history or one multi-cycle gather history; distinct_nontrivial counts (stream, latency, re-entrancy, close kind/time bucket, yield level, size bucket) and (cycles, completed, addresses, slow handler) classes",
     "assumptions": ["events are enqueued by one goroutine at a time, as the agent loop does"],
